@@ -16,7 +16,8 @@ Scalars == {<<"int", "i1">>, <<"float", "f1">>, <<"str", "s1", "dq">>, <<"str", 
 ValsCore == Scalars \cup {<<"list", <<>>>>, <<"list", <<<<"int", "i2">>, <<"str", "w2", "bare">>>>>>,
                           <<"list", <<<<"list", <<<<"float", "f2">>>>>>, <<"list", <<>>>>, <<"str", "s3", "dq">>>>>>,
                           <<"tuple", <<<<<<"str", "k1", "bare">>, <<"str", "s1", "dq">>>>>>>>,
-                          <<"tuple", <<<<<<"str", "k1", "dq">>, <<"str", "w1", "bare">>>>, <<<<"str", "k2", "bare">>, <<"int", "i1">>>>>>>>}
+                          <<"tuple", <<<<<<"str", "k1", "dq">>, <<"str", "w1", "bare">>>>, <<<<"str", "k2", "bare">>, <<"int", "i1">>>>>>>>,
+                          <<"tuple", <<<<<<"str", "k2", "bare">>, <<"bool", "True">>>>, <<<<"bool", "False">>, <<"str", "w2", "bare">>>>>>>>}
 ValsRich == ValsCore \cup {<<"list", <<<<"list", <<<<"list", <<<<"int", "i1">>, <<"int", "i2">>>>>>, <<"str", "w1", "bare">>>>>>>>>>,
                            <<"list", <<<<"bool", "False">>, <<"float", "f1">>, <<"int", "i1">>, <<"str", "s2", "sq">>>>>>}
 ProgSet ==
